@@ -12,11 +12,12 @@ pub open spec fn byte_jif() -> u8 { opcode_byte(OpCode::JumpIfFalse) }
 
 /// contract-consistency lemmas: the DERIVED clauses on the assumed emit helpers follow from their primary clauses
 pub proof fn lemma_emit_opcode_inv(pre: Compiler, post: Compiler, op: OpCode)
-    requires gen_inv(pre), post.instructions@ == pre.instructions@.push(opcode_byte(op)), post.last_instruction == Some(op), same_but_code(pre, post)
+    requires gen_inv(pre), post.instructions@ == pre.instructions@.push(opcode_byte(op)), post.last_instruction == Some(op), same_but_code(pre, post),
+             post.height@ == (if op_ends_flow(op) { H::Dead } else { hplus(pre.height@, op_delta(op)) }),
     ensures gen_inv(post)
 {}
 pub proof fn lemma_emit_operand_inv(pre: Compiler, post: Compiler, extra: Seq<u8>)
-    requires gen_inv(pre), !(pre.last_instruction is Some && no_operand_tail(pre.last_instruction->Some_0)), post.instructions@ == pre.instructions@ + extra, post.last_instruction == pre.last_instruction, same_but_code(pre, post)
+    requires gen_inv(pre), !(pre.last_instruction is Some && no_operand_tail(pre.last_instruction->Some_0)), post.instructions@ == pre.instructions@ + extra, post.last_instruction == pre.last_instruction, same_but_code(pre, post), post.height@ == pre.height@
     ensures gen_inv(post)
 {}
 
@@ -167,7 +168,10 @@ impl Compiler {
             //@VACUITY
             final(self).instructions@ == old(self).instructions@.drop_last(), final(self).last_instruction is None,
             same_but_code(*old(self), *final(self)), gen_inv(*final(self)),
+            // GHOST instrumentation: the removed instruction is the remembered Pop - its effect on the height is undone
+            final(self).height@ == hplus(old(self).height@, 1),
     {
+//@GHOST after="self.last_instruction = None;" proof { self.height = Ghost(hplus(self.height@, 1)); }
 //@BODY file=compiler.rs fn=remove_last_instruction impl=Compiler sig="fn remove_last_instruction(&mut self)" rules="R4;R4d"
     }
 
@@ -176,6 +180,7 @@ impl Compiler {
     fn arm_break(&mut self) -> (r: Result<(), Error>)
         requires gen_inv(*old(self))
         ensures
+            r is Ok ==> hstep(old(self).height@, final(self).height@, 0),
             //@VACUITY
             sym_wf(final(self).symbols),
             old(self).loop_contexts@.len() == 0 ==> (r matches Err(Error::SyntaxError(_)) && final(self).instructions@ == old(self).instructions@ && final(self).loop_contexts@.len() == 0),
@@ -208,6 +213,7 @@ impl Compiler {
     fn arm_continue(&mut self) -> (r: Result<(), Error>)
         requires gen_inv(*old(self))
         ensures
+            r is Ok ==> hstep(old(self).height@, final(self).height@, 0),
             //@VACUITY
             sym_wf(final(self).symbols),
             old(self).loop_contexts@.len() == 0 ==> (r matches Err(Error::SyntaxError(_)) && final(self).instructions@ == old(self).instructions@),
@@ -234,6 +240,7 @@ impl Compiler {
     fn arm_if(&mut self, condition: &Box<Expr>, consequence: &Vec<Stmt>, alternative: &Option<Vec<Stmt>>) -> (r: Result<(), Error>)
         requires gen_inv(*old(self))
         ensures
+            r is Ok ==> hstep(old(self).height@, final(self).height@, 1),
             //@VACUITY
             sym_wf(final(self).symbols),
             r is Ok ==> is_prefix(old(self).instructions@, final(self).instructions@),
@@ -247,7 +254,7 @@ impl Compiler {
 //@GHOST before="self.compile_block_value(consequence)?;" let ghost e1 = *self;
 //@GHOST after="self.compile_block_value(consequence)?;" let ghost s_cons = *self;
 //@GHOST before="self.change_jump_operand_at(pos_jump_if_false, to_u16(self.instructions.len())?);" let ghost e2 = *self;
-//@GHOST after="self.change_jump_operand_at(pos_jump_if_false, to_u16(self.instructions.len())?);" let ghost s_mid = *self;
+//@GHOST after="self.change_jump_operand_at(pos_jump_if_false, to_u16(self.instructions.len())?);" proof { /* the JumpIfFalse lands HERE: its flow (height right after the condition was popped) joins */ self.height = Ghost(hjoin(self.height@, e1.height@)); } let ghost s_mid = *self;
 //@GHOST before="self.change_jump_operand_at(pos_jump, to_u16(self.instructions.len())?);" let ghost s_pre = *self;
 //@ARM file=compiler.rs fn=compile_expression impl=Compiler arm="Expr::If" rules="R1;R4"
         proof {
@@ -274,6 +281,10 @@ impl Compiler {
 
             // ---- the arm meets the generator contract it assumes of its callees (gen_post) ----
             lemma_if_gen_post(*old(self), s_cond, e1, s_cons, e2, s_mid, s_pre, *self, alternative is Some);
+            // the Jump that ends the consequence lands HERE: its flow (height with the consequence's value) joins
+            let ghost s_fin = *self;
+            self.height = Ghost(hjoin(self.height@, s_cons.height@));
+            lemma_gen_post_ghost(*old(self), s_fin, *self, true);
         }
         Ok(())
     }
@@ -287,20 +298,23 @@ impl Compiler {
     fn arm_while(&mut self, condition: &Box<Expr>, body: &Vec<Stmt>) -> (r: Result<(), Error>)
         requires gen_inv(*old(self))
         ensures
+            r is Ok ==> hstep(old(self).height@, final(self).height@, 1),
             //@VACUITY
             sym_wf(final(self).symbols),
             r is Ok ==> is_prefix(old(self).instructions@, final(self).instructions@),
             r is Ok ==> while_post(*old(self), *final(self), **condition, body@),
             r is Ok ==> gen_post(*old(self), *final(self), true),
     {
-//@GHOST after="LoopContext::new(self.instructions.len()));" let ghost s0 = *self;
+//@GHOST after="LoopContext::new(self.instructions.len()));" proof { /* what this loop expects at its start label and at its exit: the height with the loop value on top */ self.loop_h = Ghost(self.loop_h@.push(self.height@)); } let ghost s0 = *self;
 //@GHOST after="self.compile_expression(condition)?;" let ghost s_cond = *self;
 //@GHOST after="let ip = __v[__k];" proof { assert(ip == stops[__k as int]); assert(stop_final(*self, n0, pc, len_final, stops[__k as int] as int)); }
+//@GHOST before="self.emit_opcode(OpCode::Pop);" let ghost h_exit = self.height@;
 //@GHOST after="self.emit_opcode(OpCode::Pop);" let ghost s_pre = *self;
 //@GHOST after="self.compile_block_value(body)?;" let ghost s_body = *self; proof { let m = s_body.loop_contexts@.len() - 1; assert(m == old(self).loop_contexts@.len()); assert(breaks(s_pre, m) == breaks(s_cond, m)); assert(s_pre.instructions@.len() == pos_jump_if_false + 4); assert forall|j: int| 0 <= j < breaks(s_body, m).len() implies stop_ok(s_body, old(self).instructions@.len() as int, pos_jump_if_false as int, #[trigger] breaks(s_body, m)[j] as int) by { let b0 = breaks(s_pre, m); let b1 = breaks(s_body, m); if j < b0.len() { assert(b1.subrange(0, b0.len() as int)[j] == b0[j]); assert(break_ok(s_cond, b0[j] as int)); assert(s_pre.instructions@[b0[j] as int] == s_cond.instructions@[b0[j] as int]); } else { assert(break_ok(s_body, b1[j] as int)); } } assert forall|j: int, k: int| 0 <= j < k < breaks(s_body, m).len() implies #[trigger] breaks(s_body, m)[j] + 3 <= #[trigger] breaks(s_body, m)[k] by { let b0 = breaks(s_pre, m); let b1 = breaks(s_body, m); if j < b0.len() { assert(b1.subrange(0, b0.len() as int)[j] == b0[j]); assert(break_ok(s_cond, b0[j] as int)); if k < b0.len() { assert(b1.subrange(0, b0.len() as int)[k] == b0[k]); } } } }
 //@GHOST after="self.emit_u16(to_u16(pos_before_condition)?);" let ghost s_jump = *self;
-//@PRELOOP 1 let ghost stops = __v@; let ghost len_final = self.instructions@.len() as int; let ghost n0 = old(self).instructions@.len() as int; let ghost pc = pos_jump_if_false as int; let ghost log_after_body = self.log@; proof { assert(stops == breaks(s_body, s_body.loop_contexts@.len() - 1)); assert(self.loop_contexts@ =~= s_jump.loop_contexts@.drop_last()); assert forall|i: int| 0 <= i < old(self).loop_contexts@.len() implies #[trigger] self.loop_contexts@[i].start == old(self).loop_contexts@[i].start && breaks(*self, i) == breaks(*old(self), i) by { assert(s0.loop_contexts@[i] == old(self).loop_contexts@[i]); assert(s_cond.loop_contexts@[i].start == s0.loop_contexts@[i].start); assert(breaks(s_cond, i) == breaks(s0, i)); assert(s_body.loop_contexts@[i].start == s_pre.loop_contexts@[i].start); assert(breaks(s_body, i) == breaks(s_pre, i)); assert(s_jump.loop_contexts@[i] == s_body.loop_contexts@[i]); } assert forall|j: int| 0 <= j < stops.len() implies stop_final(*self, n0, pc, len_final, #[trigger] stops[j] as int) by { assert(stop_ok(s_body, n0, pc, stops[j] as int)); assert(s_jump.instructions@[stops[j] as int] == s_body.instructions@[stops[j] as int]); }  assert(consts_syms_kept(*old(self), *self)) by { assert(consts_syms_kept(*old(self), s0)); assert(consts_syms_kept(s0, s_cond)); assert(consts_syms_kept(s_cond, s_pre)); assert(consts_syms_kept(s_pre, s_body)); assert(consts_syms_kept(s_body, s_jump)); } }
-//@LOOP 1 invariant __v@ == stops, consts_syms_kept(*old(self), *self), sym_wf(self.symbols), n0 == old(self).instructions@.len(), while_log(*old(self), log_after_body, pc, **condition, body@), self.instructions@.len() == len_final, len_final <= 0xFFFF, same_loops(*self, *old(self)), self.log@ == log_after_body, self.last_instruction == Some(OpCode::Jump), is_prefix(old(self).instructions@, self.instructions@), n0 < pc, pc + 4 <= len_final - 3, self.instructions@[n0] == opcode_byte(OpCode::Null), self.instructions@[pc] == byte_jif(), u16_at(self.instructions@, pc + 1) == len_final, self.instructions@[pc + 3] == opcode_byte(OpCode::Pop), self.instructions@[len_final - 3] == byte_jump(), u16_at(self.instructions@, len_final - 2) == n0 + 1, forall|j: int| 0 <= j < stops.len() ==> stop_final(*self, n0, pc, len_final, #[trigger] stops[j] as int), forall|j: int, k: int| 0 <= j < k < stops.len() ==> #[trigger] stops[j] + 3 <= #[trigger] stops[k], forall|j: int| 0 <= j < __it.index@ ==> u16_at(self.instructions@, #[trigger] stops[j] as int + 1) == len_final,
+//@GHOST after="self.change_jump_operand_at(pos_jump_if_false, to_u16(self.instructions.len())?);" proof { /* the back jump leaves from the height the loop is entered with */ assert(s_body.height@ is Dead || s0.height@ is Conflict || s_body.height@ == s0.height@); /* the JumpIfFalse lands HERE */ self.height = Ghost(hjoin(self.height@, h_exit)); }
+//@PRELOOP 1 proof { self.loop_h = Ghost(self.loop_h@.drop_last()); assert(self.loop_h@ =~= old(self).loop_h@); } let ghost h_fin = self.height@; let ghost stops = __v@; let ghost len_final = self.instructions@.len() as int; let ghost n0 = old(self).instructions@.len() as int; let ghost pc = pos_jump_if_false as int; let ghost log_after_body = self.log@; proof { assert(stops == breaks(s_body, s_body.loop_contexts@.len() - 1)); assert(self.loop_contexts@ =~= s_jump.loop_contexts@.drop_last()); assert forall|i: int| 0 <= i < old(self).loop_contexts@.len() implies #[trigger] self.loop_contexts@[i].start == old(self).loop_contexts@[i].start && breaks(*self, i) == breaks(*old(self), i) by { assert(s0.loop_contexts@[i] == old(self).loop_contexts@[i]); assert(s_cond.loop_contexts@[i].start == s0.loop_contexts@[i].start); assert(breaks(s_cond, i) == breaks(s0, i)); assert(s_body.loop_contexts@[i].start == s_pre.loop_contexts@[i].start); assert(breaks(s_body, i) == breaks(s_pre, i)); assert(s_jump.loop_contexts@[i] == s_body.loop_contexts@[i]); } assert forall|j: int| 0 <= j < stops.len() implies stop_final(*self, n0, pc, len_final, #[trigger] stops[j] as int) by { assert(stop_ok(s_body, n0, pc, stops[j] as int)); assert(s_jump.instructions@[stops[j] as int] == s_body.instructions@[stops[j] as int]); }  assert(consts_syms_kept(*old(self), *self)) by { assert(consts_syms_kept(*old(self), s0)); assert(consts_syms_kept(s0, s_cond)); assert(consts_syms_kept(s_cond, s_pre)); assert(consts_syms_kept(s_pre, s_body)); assert(consts_syms_kept(s_body, s_jump)); } }
+//@LOOP 1 invariant self.loop_h@ == old(self).loop_h@, self.height@ == h_fin, hstep(old(self).height@, h_fin, 1), __v@ == stops, consts_syms_kept(*old(self), *self), sym_wf(self.symbols), n0 == old(self).instructions@.len(), while_log(*old(self), log_after_body, pc, **condition, body@), self.instructions@.len() == len_final, len_final <= 0xFFFF, same_loops(*self, *old(self)), self.log@ == log_after_body, self.last_instruction == Some(OpCode::Jump), is_prefix(old(self).instructions@, self.instructions@), n0 < pc, pc + 4 <= len_final - 3, self.instructions@[n0] == opcode_byte(OpCode::Null), self.instructions@[pc] == byte_jif(), u16_at(self.instructions@, pc + 1) == len_final, self.instructions@[pc + 3] == opcode_byte(OpCode::Pop), self.instructions@[len_final - 3] == byte_jump(), u16_at(self.instructions@, len_final - 2) == n0 + 1, forall|j: int| 0 <= j < stops.len() ==> stop_final(*self, n0, pc, len_final, #[trigger] stops[j] as int), forall|j: int, k: int| 0 <= j < k < stops.len() ==> #[trigger] stops[j] + 3 <= #[trigger] stops[k], forall|j: int| 0 <= j < __it.index@ ==> u16_at(self.instructions@, #[trigger] stops[j] as int + 1) == len_final,
 //@ARM file=compiler.rs fn=compile_expression impl=Compiler arm="Expr::While" rules="R1;R4;R13[ip in ctx.break_instructions]"
         proof {
             self.log = Ghost(self.log@.push(LogEntry { what: LogWhat::Stops(stops), start: n0, end: len_final, depth: 0, contexts: 0 }));
